@@ -123,6 +123,10 @@ def check_images(items):
             w = [x for x in body if x.startswith("write=")]
             if w and w[0] != "write=ok":
                 failures.append((it, "the recovered store rejects a write: " + w[0]))
+            l3 = [x for x in body if x.startswith("life3=")]
+            if l3 and l3[0] not in ("life3=ok", "life3=skipped"):
+                failures.append((it, "after recovery the store acknowledged a set of a new key, an overwrite and a delete; after one more "
+                                     "restart they are not all there: " + l3[0][:200]))
             for key in it["keys"]:
                 g = got.get(G.hexs(key))
                 vb = it["before"].get(key)
@@ -151,3 +155,37 @@ def build_items(cases, rng, cuts_per_write, power=False, max_points=None):
             after = states[i] if i >= 0 else {}
             items.append({"case": c, "op": i, "desc": desc, "files": files, "keys": keys, "before": before, "after": after})
     return items
+
+
+def recover_forbidden_calls(items):
+    """Opens the images with the real code UNDER THE RECORDER and returns the calls of the recovering processes that the file
+    discipline forbids (truncate, rename, positional write, writable mapping, opening an existing store file for writing)."""
+    scratch = SCRATCH + "-rec"
+    shutil.rmtree(scratch, ignore_errors=True)
+    os.makedirs(scratch)
+    lines = []
+    for n, it in enumerate(items):
+        p = os.path.join(scratch, "i%d" % n)
+        materialise(p, it["files"])
+        lines.append("R %s mfs=%d %s" % (p, it["case"].cfg["mfs"], ",".join(G.rawhex(k) for k in it["keys"])))
+    shards = chunks(lines, NCPU)
+
+    def one(arg):
+        i, sh = arg
+        logp = os.path.join(T.CACHE, "iolog-recover-%d-%d.txt" % (os.getpid(), i))
+        if os.path.exists(logp):
+            os.remove(logp)
+        harness_run(["recover"], "\n".join(sh) + "\n", timeout=900, env={"LD_PRELOAD": T.SHIM, "IOREC_LOG": logp})
+        bad = []
+        if os.path.exists(logp):
+            for l in open(logp, errors="replace"):
+                if l.split(" ")[0] in ("openw", "pwrite", "rename", "truncate", "mmapw"):
+                    bad.append(l.strip()[:120])
+            os.remove(logp)
+        return bad
+    out = []
+    with cf.ThreadPoolExecutor(max_workers=NCPU) as ex:
+        for b in ex.map(one, list(enumerate(shards))):
+            out += b
+    shutil.rmtree(scratch, ignore_errors=True)
+    return out
